@@ -80,6 +80,12 @@ pub fn configs_c08(tier: Tier) -> Vec<Box<dyn Config>> {
         let h = LayHarness::<S6>::new(Coll::Set, Plan::Zero, if q { 5 } else { 8 }, false);
         let l = format!("{}-allocation-size", h.label());
         v.push(Box::new(BfsConfig::new(l, h, lim(tier))));
+        // zero-sized elements: the allocation consists of control bytes only, and is still an allocation
+        for coll in [Coll::Set, Coll::Map, Coll::Table] {
+            let h = LayHarness::<Z0>::new(coll, Plan::Zero, 1, false);
+            let l = format!("{}-allocation-size", h.label());
+            v.push(Box::new(BfsConfig::new(l, h, lim(tier))));
+        }
     }
     // scripted full / tombstone-saturated / all-tombstone tables (capacity() == 0 with an allocation)
     {
@@ -163,15 +169,25 @@ pub fn configs_c12(tier: Tier) -> Vec<Box<dyn Config>> {
 /// C13: all insert/remove interleavings with at most `n` live elements and
 /// `n + 1` keys per class, to a fixpoint; bucket bound checked in every state.
 fn churn(plan: Plan, classes: u8, n: usize, tier: Tier, need_inplace: bool) -> Box<dyn Config> {
+    churn_of(plan, classes, n, tier, need_inplace, false)
+}
+
+/// `shrink`: `shrink_to_fit` / `shrink_to(len)` join the alphabet (giving memory back is not "reserving capacity";
+/// a shrink that cannot reduce the table must leave the free-slot accounting alone)
+fn churn_of(plan: Plan, classes: u8, n: usize, tier: Tier, need_inplace: bool, shrink: bool) -> Box<dyn Config> {
     let universe = (classes as usize * (n + 1)).min(120) as u8;
     let mut c = MapCfg::new(plan, universe);
     c.alphabet = Alphabet::churn();
+    if shrink {
+        c.alphabet.shrink_to_fit = true;
+        c.alphabet.shrink_to = vec![Shr::Len];
+    }
     c.max_live = Some(n);
     c.no_growth_when_half_empty = true;
     let (size, align) = hashbrown::verif::table_layout_of::<(TKey, TVal)>();
     let base = hashbrown::verif::capacity_to_buckets(n.max(1), size, align).unwrap();
     c.bucket_bound = Some(4 * base);
-    let label = format!("{}-churn", c.label());
+    let label = format!("{}-churn{}", c.label(), if shrink { "+shrink" } else { "" });
     let mut b = BfsConfig::new(label, MapHarness::<TKey, TVal>::new(c), lim(tier));
     b.require_fixpoint = true;
     b.post = Some(Box::new(move |out, stats| {
@@ -204,6 +220,10 @@ fn churn_seeded_of<K: KeyT, V: ValT>(plan: Plan, tier: Tier, tag: &str) -> Box<d
     let n = 28usize;
     let mut c = MapCfg::new(plan, 30);
     c.alphabet = Alphabet::churn();
+    if tag.contains("+shrink") {
+        c.alphabet.shrink_to_fit = true;
+        c.alphabet.shrink_to = vec![Shr::Len];
+    }
     c.max_live = Some(n);
     c.no_growth_when_half_empty = true;
     let (size, align) = hashbrown::verif::table_layout_of::<(K, V)>();
@@ -242,6 +262,7 @@ pub fn configs_c13(tier: Tier) -> Vec<Box<dyn Config>> {
     let q = tier == Tier::Quick;
     let mut v: Vec<Box<dyn Config>> = Vec::new();
     v.push(Box::new(super::rehash::RehashGrammar { tier }));
+    v.push(Box::new(super::widechurn::WideChurn { tier }));
     if sse2 {
         v.push(churn(Plan::Zero, 1, if q { 15 } else { 19 }, tier, false));
         v.push(churn_seeded(tier));
@@ -249,6 +270,8 @@ pub fn configs_c13(tier: Tier) -> Vec<Box<dyn Config>> {
         v.push(churn_seeded_of::<TKey, TVal>(Plan::Seq, tier, ""));
         // 136-byte entries: reclaiming in place must not depend on the element size
         v.push(churn_seeded_of::<PKey, BVal>(Plan::Zero, tier, "-bulky"));
+        v.push(churn_seeded_of::<TKey, TVal>(Plan::Zero, tier, "+shrink"));
+        v.push(churn_of(Plan::Zero, 1, if q { 7 } else { 15 }, tier, false, true));
         v.push(churn(Plan::Zero, 1, 3, tier, false));
         v.push(churn(Plan::Zero, 1, 7, tier, false));
         v.push(churn(Plan::Cluster(2), 2, if q { 4 } else { 7 }, tier, false));
@@ -257,6 +280,8 @@ pub fn configs_c13(tier: Tier) -> Vec<Box<dyn Config>> {
         v.push(churn(Plan::Zero, 1, if q { 8 } else { 14 }, tier, true));
         v.push(churn_seeded_of::<PKey, BVal>(Plan::Zero, tier, "-bulky"));
         v.push(churn_seeded_of::<TKey, TVal>(Plan::Seq, tier, ""));
+        v.push(churn_of(Plan::Zero, 1, if q { 8 } else { 12 }, tier, false, true));
+        v.push(churn_of(Plan::Seq, 1, if q { 4 } else { 6 }, tier, false, true));
         v.push(churn(Plan::Zero, 1, 3, tier, false));
         v.push(churn(Plan::Zero, 1, 7, tier, false));
         v.push(churn(Plan::Cluster(2), 2, if q { 5 } else { 8 }, tier, !q));
